@@ -741,7 +741,9 @@ pub fn run_c06(ctx: &Ctx) {
     let sizes: &[usize] = ctx.tier.pick(&[1 << 20], &[1 << 20, 3 << 20, 8 << 20]);
     for (i, sz) in sizes.iter().enumerate() {
         let w = big_payload_wire(*sz, i as u8 * 7 + 3);
-        let c = C06Case { w, scheds: vec![(0, 0, 0, 0), (3, 3999, 1, 0x1234_5678), (2, 5, 0xdead_beef, 77)] };
+        // (no one-byte schedule here: millions of scripted reads per parser only cost time; one-byte
+        // delivery is covered on the generated messages and the exhaustive compositions)
+        let c = C06Case { w, scheds: vec![(3, 3999, 1, 0), (3, 65535 % 4000, 3, 0x1234_5678), (1, 8, 0xdead_beef, 0)] };
         ctx.label("MiB payload");
         if let Err(f) = judge_c06(&c, &probe) {
             ctx.failure("big-payload", &f, json!({"payload_len": sz, "note": "generated by big_payload_wire"}));
